@@ -403,6 +403,7 @@ func main() {
 	}
 
 	r.ParallelL(int64(len(states)), func(i int64, l *hx.Local) { explore(states[i], l) })
+	lateUsable(r, filepath.Join(base, "late"))
 	faultPart(r)
 	r.Rule = fmt.Sprintf("states = directory lists of length 1..3 with every position in %v x per-directory populations of the slots %v over %v without same-directory conflicts (%d populations per directory for <=1 good directory, a %d-element reduced set for more); "+
 		"transitions = every single repair (remove or rewrite a bad file, create a missing directory with a valid file) followed by Refresh on the same cache, to depth 2. "+
@@ -412,6 +413,60 @@ func main() {
 		"no same-priority conflicts (the statement's refresh clause does not define them)", "a configured directory that is a regular file is given an extension-less name"}
 	os.RemoveAll(base)
 	r.Finish()
+}
+
+// lateUsable: an automatic-refresh cache is created while one configured directory is unusable
+// (missing, or below a regular file), queried, and then the path is made a
+// directory holding a valid Spec. The next query notices on its own (every query retries the
+// watch of directories it could not watch; no file-system event is involved, so nothing here
+// depends on timing): the cache must answer like a new one. Every kind of unusable path, at every
+// position of lists with a usable and with another unusable directory.
+func lateUsable(r *hx.Run, root string) {
+	n := 0
+	// (a configured path that IS a regular file gets watched as a file: its replacement by a directory is
+	// announced by events, i.e. eventually - that case belongs to C11's scheduler-controlled histories)
+	for _, kind := range []string{"missing", "non-dir-ancestor"} {
+		for shape := 0; shape < 4; shape++ {
+			_ = os.RemoveAll(root)
+			good, other := filepath.Join(root, "good"), filepath.Join(root, "never-there")
+			_ = os.MkdirAll(good, 0o755)
+			_ = os.WriteFile(filepath.Join(good, "a.json"), dirmodel.Content(dirmodel.X, "a.json", "good/a.json"), 0o644)
+			late := filepath.Join(root, "late-dir")
+			switch kind {
+			case "regular-file":
+				_ = os.WriteFile(late, []byte("i am a file"), 0o644)
+			case "non-dir-ancestor":
+				_ = os.WriteFile(late, []byte("i am a file"), 0o644)
+				late = filepath.Join(late, "sub")
+			}
+			list := [][]string{{late}, {good, late}, {late, good}, {late, other, good}}[shape]
+			ca, _ := cdi.NewCache(cdi.WithSpecDirs(list...), cdi.WithAutoRefresh(true))
+			_ = ca.ListDevices()
+			_ = ca.GetErrors()
+			// the repair
+			if kind != "missing" {
+				_ = os.Remove(filepath.Join(root, "late-dir"))
+			}
+			_ = os.MkdirAll(late, 0o755)
+			_ = os.WriteFile(filepath.Join(late, "y.json"), dirmodel.Content(dirmodel.Y, "y.json", "late/y.json"), 0o644)
+			got := dirmodel.Observe(ca)
+			rerr := ca.Refresh()
+			got2 := dirmodel.Observe(ca)
+			fresh, _ := cdi.NewCache(cdi.WithSpecDirs(list...), cdi.WithAutoRefresh(false))
+			want := dirmodel.Observe(fresh)
+			_ = ca.Configure(cdi.WithAutoRefresh(false))
+			n++
+			r.AddEvals(1, 1)
+			r.Outcome("late-usable-directory:picked-up")
+			cs := map[string]any{"unusable_at_creation": kind, "directory_list_shape": shape, "list": list}
+			if !got.SameAnswers(want) || !got2.SameAnswers(want) {
+				r.Fail(&hx.Failure{Sig: "auto-refresh:directory-usable-later-not-picked-up:" + kind, Msg: fmt.Sprintf("automatic-refresh cache created while %s was %s; after the path became a directory with a valid Spec the cache lists %v (after Refresh %v), a new cache %v", late, kind, got.Devices, got2.Devices, want.Devices), Case: cs, Expected: want, Actual: got2})
+			} else if rerr != nil && len(want.ErrPaths) == 0 && shape != 3 {
+				r.Fail(&hx.Failure{Sig: "auto-refresh:directory-usable-later:refresh-error:" + kind, Msg: "Refresh() returns " + rerr.Error() + " although every configured directory is usable now and every Spec file valid", Case: cs})
+			}
+		}
+	}
+	r.Extra["automatic_caches_with_a_directory_that_became_usable_later"] = n
 }
 
 // faultPart runs the Engine B half (checks/c13faults, built through the overlay): errno
